@@ -18,7 +18,7 @@ MANIFEST = {
 
 BOUNDS = {
     'quick': {'relabel-X': [(2, 2, 4), (3, 2, 3)], 'relabel-Y': [(2, 2, 4), (3, 2, 3)], 'shortcut': [(2, 3), (3, 3), (4, 2)]},
-    'thorough': {'relabel-X': [(2, 3, 4), (3, 3, 4), (4, 2, 3)], 'relabel-Y': [(2, 3, 4), (3, 3, 4), (4, 2, 3)], 'shortcut': [(3, 3), (4, 3), (5, 2), (4, 4)]},
+    'thorough': {'relabel-X': [(2, 3, 4), (3, 3, 4), (4, 2, 3), (4, 3, 4), (5, 2, 3)], 'relabel-Y': [(2, 3, 4), (3, 3, 4), (4, 2, 3), (4, 3, 4), (5, 2, 3)], 'shortcut': [(3, 3), (4, 3), (5, 2), (4, 4), (5, 3), (6, 2)]},
 }
 
 INFO = {
